@@ -92,6 +92,10 @@ func (r *c06run) judge(c *C06Case, o *plan.Outcome, relaxFam bool) (class, detai
 		dn = d.DAtErr
 	}
 	if o.Panic != "" {
+		if hasErr && (d.Log[d.FirstErr].Err == "panic-str" || d.Log[d.FirstErr].Err == "panic-err") {
+			r.res.Relaxed["iii_device_panic_propagated"]++
+			return "", "" // the source itself panicked: letting the panic through is fail-closed
+		}
 		return "panic", "NewMnemonic panicked: " + o.Panic
 	}
 	m, _ := strconv.Unquote(o.Out)
@@ -329,6 +333,23 @@ func RunC06(job *C06Job, d *dev.Dev) *C06Result {
 						}
 						with := append(pre(k-j), plan.DevStep{D: j, E: e})
 						emit(n, "faults", with)
+					}
+				}
+			}
+		}
+	case "panics":
+		for _, n := range needs {
+			need := n + n/3
+			for k := 0; k < need; k++ {
+				for _, e := range []string{"panic-str", "panic-err"} {
+					for frag := 0; frag < 2; frag++ {
+						var s []plan.DevStep
+						if k > 0 && frag == 0 {
+							s = append(s, plan.DevStep{D: k})
+						} else {
+							s = append(s, randCuts(rng, k)...)
+						}
+						emit(n, "panics", append(s, plan.DevStep{E: e}))
 					}
 				}
 			}
